@@ -3,7 +3,8 @@ does not depend on the iteration order of the hash map of per-type preprocessed 
 Real text: circuit-prover/src/common.rs  get_airs_and_degrees_with_prep[npo_air_order] -- the loop over the registered builders (R13 slice),
            circuit-prover/src/batch_stark_prover.rs  poseidon2_air_builders_for_configs (whole).
 The hash map is iterated through a stub that returns its entries in an ARBITRARY order (every key exactly once): the contract is proved
-for every such order, under the stated uniqueness hypothesis (a builder accepts at most one of the op types present)."""
+since fix 51e634f the op types are listed in ascending key order and each builder takes its first match: no uniqueness hypothesis is needed any more
+(the unit had carried "a builder accepts at most one of the op types present" as a PRECONDITION, which hid the defect repaired by that fix)."""
 import re
 
 from vf.unit import Unit, unmap_iter_collect_general, unhashset_collect, HASH_SET_ORDER_STUB
@@ -47,19 +48,33 @@ impl PrepMap {
                 forall|t: NpoTypeId| self.m@.dom().contains(t) ==> exists|k: int| 0 <= k < r@.len() && (#[trigger] r@[k]).0 == t
     { unimplemented!() }
 }
-/// a builder accepts at most one of the op types present (what makes the choice inside the hash-ordered scan well defined)
-pub open spec fn unique_accept(b: AirBuilder, m: Map<NpoTypeId, PrepBase>) -> bool {
-    forall|t1: NpoTypeId, t2: NpoTypeId| m.dom().contains(t1) && m.dom().contains(t2) && accepts(b, t1) && accepts(b, t2) ==> t1 == t2
+/// THE ascending listing of the keys of the map (`keys().collect()` + `sort()`): a function of the map's contents, every key exactly once
+pub uninterp spec fn sorted_keys(m: Map<NpoTypeId, PrepBase>) -> Seq<NpoTypeId>;
+impl PrepMap {
+    #[verifier::external_body]
+    pub fn sorted_keys(&self) -> (r: Vec<NpoTypeId>)
+        ensures r@ == sorted_keys(self.m@), forall|k: int| 0 <= k < r@.len() ==> self.m@.dom().contains(#[trigger] r@[k])
+    { unimplemented!() }
+    /// `&map[key]` (panics on a missing key)
+    #[verifier::external_body]
+    pub fn at(&self, k: &NpoTypeId) -> (r: &PrepBase) requires self.m@.dom().contains(*k) ensures *r == self.m@[*k] { unimplemented!() }
 }
-pub open spec fn accepts_some(b: AirBuilder, m: Map<NpoTypeId, PrepBase>) -> bool { exists|t: NpoTypeId| m.dom().contains(t) && accepts(b, t) }
-pub open spec fn the_type(b: AirBuilder, m: Map<NpoTypeId, PrepBase>) -> NpoTypeId { choose|t: NpoTypeId| m.dom().contains(t) && accepts(b, t) }
-/// the AIRs contributed by builders[0..n], in builder order
+/// index of the first key among ks[0..n] the builder accepts
+pub open spec fn first_acc(b: AirBuilder, ks: Seq<NpoTypeId>, n: int) -> Option<int> decreases n {
+    if n <= 0 { None } else { match first_acc(b, ks, n - 1) { Some(k) => Some(k), None => if accepts(b, ks[n - 1]) { Some(n - 1) } else { None } } }
+}
+pub proof fn lemma_first_acc_found(b: AirBuilder, ks: Seq<NpoTypeId>, e: int, n: int)
+    requires 0 <= e < n <= ks.len(), first_acc(b, ks, e) is None, accepts(b, ks[e])
+    ensures first_acc(b, ks, n) == Some(e)
+    decreases n - e
+{ if n > e + 1 { lemma_first_acc_found(b, ks, e, n - 1); } }
+/// the AIRs contributed by builders[0..n], in builder order: each builder builds for the first op type, in ascending key order, that it accepts
 pub open spec fn airs_of(bs: Seq<AirBuilder>, n: int, m: Map<NpoTypeId, PrepBase>, p: &TablePacking, min_height: usize, profile: ConstraintProfile) -> Seq<(Air, usize)>
     decreases n
 {
     if n <= 0 { Seq::empty() } else {
-        let b = bs[n - 1]; let prev = airs_of(bs, n - 1, m, p, min_height, profile);
-        if accepts_some(b, m) { let t = the_type(b, m); prev.push(built(b, t, m[t], min_height, lanes_for(p, b, t), profile)) } else { prev }
+        let b = bs[n - 1]; let prev = airs_of(bs, n - 1, m, p, min_height, profile); let ks = sorted_keys(m);
+        match first_acc(b, ks, ks.len() as int) { Some(k) => prev.push(built(b, ks[k], m[ks[k]], min_height, lanes_for(p, b, ks[k]), profile)), None => prev }
     }
 }
 pub struct Poseidon2AirBuilderForConfig<const D: usize> { pub config: Poseidon2Config }
@@ -95,42 +110,47 @@ def build():
         pb.loop(HP, invariants=[('builders_so_far', 'v_m0_@.len() == m0_ && forall|i: int| 0 <= i < m0_ ==> (#[trigger] v_m0_@[i]).config == Some(configs@[i])')])
     C = 'circuit-prover/src/common.rs'
     g = u.extract(C, '', 'get_airs_and_degrees_with_prep', 'get_airs_and_degrees_with_prep[npo_air_order]')
-    slice_from_through_loop(g, 'for builder in non_primitive_air_builders {', r'for builder in non_primitive_air_builders \{', '', 'everything before the loop over the registered AIR builders (primitive tables, plugin preprocessing) and the final Ok(..)')
+    # R13: from the sorted listing of the op types (fix 51e634f) -- or, on a tree without it, from the loop over the builders -- through that loop
+    start = 'let mut op_types' if re.search(r'let mut op_types\b', g.body) else 'for builder in non_primitive_air_builders {'
+    slice_from_through_loop(g, start, r'for builder in non_primitive_air_builders \{', '', 'everything before the listing of the op types / the loop over the registered AIR builders (primitive tables, plugin preprocessing) and the final Ok(..)')
     g.set_sig('R11', 'fn get_airs_and_degrees_with_prep(non_primitive_air_builders: &Vec<AirBuilder>, non_primitive_base: &PrepMap, packing: &TablePacking, min_height: usize, constraint_profile: ConstraintProfile, table_preps: &mut Vec<(Air, usize)>)', sliced=True)
     g.rewrite_re('R5', r'for builder in non_primitive_air_builders \{', 'for bi_ in 0..non_primitive_air_builders.len() { let builder = &non_primitive_air_builders[bi_];', min_count=1)
-    g.rewrite_re('R5', r'for \(op_type, prep_base\) in non_primitive_base\.iter\(\) \{', 'let entries_ = non_primitive_base.entries(); for e_ in 0..entries_.len() { let (op_type, prep_base) = (&entries_[e_].0, &entries_[e_].1);', min_count=1)
+    # R6: `let mut ks: Vec<&K> = m.keys().collect(); ks.sort();` -> the ascending key listing (a function of the map's contents)
+    g.rewrite_re('R6', r'let mut (\w+): Vec<&NpoTypeId> = non_primitive_base\.keys\(\)\.collect\(\);\s*\1\.sort\(\);', r'let \1 = non_primitive_base.sorted_keys();', min_count=0)
+    g.rewrite_re('R5', r'for &(\w+) in &op_types \{', r'for e_ in 0..op_types.len() { let \1 = &op_types[e_];', min_count=0)
+    g.rewrite_re('R11', r'let prep_base = &non_primitive_base\[op_type\];', 'let prep_base = non_primitive_base.at(op_type);', min_count=0)
+    # the hash-ordered scan of a tree without the fix
+    g.rewrite_re('R5', r'for \(op_type, prep_base\) in non_primitive_base\.iter\(\) \{', 'let entries_ = non_primitive_base.entries(); for e_ in 0..entries_.len() { let (op_type, prep_base) = (&entries_[e_].0, &entries_[e_].1);', min_count=0)
     g.rewrite_re('R6', r'packing\s*\.npo_lanes\(op_type\)\s*\.unwrap_or_else\(\|\| builder\.lanes\(\)\)', '(match packing.npo_lanes(op_type) { Some(l_) => l_, None => builder.lanes() })', min_count=0)
     M_ = 'non_primitive_base.m@'
-    g.requires('each_builder_accepts_at_most_one_of_the_present_op_types', f'forall|i: int| 0 <= i < non_primitive_air_builders@.len() ==> unique_accept(#[trigger] non_primitive_air_builders@[i], {M_})')
-    g.ensures('air_order_is_the_builder_registration_order_whatever_the_map_iteration_order',
-              f'final(table_preps)@ == old(table_preps)@ + airs_of(non_primitive_air_builders@, non_primitive_air_builders@.len() as int, {M_}, packing, min_height, constraint_profile)')
     ARGS = f'{M_}, packing, min_height, constraint_profile'
+    g.ensures('air_order_is_the_builder_registration_order_and_each_builder_takes_its_first_type_in_key_order',
+              f'final(table_preps)@ == old(table_preps)@ + airs_of(non_primitive_air_builders@, non_primitive_air_builders@.len() as int, {ARGS})')
     g.at_start('let ghost tp0 = table_preps@; let ghost m = non_primitive_base.m@; let ghost bs = non_primitive_air_builders@;')
     from units.openin import after_loop_binding
-    after_loop_binding(g, 'for bi_ in 0..non_primitive_air_builders.len()', ' let ghost tp_b = table_preps@; let ghost b = *builder;')
-    g.at_loop_end('for bi_ in 0..non_primitive_air_builders.len()', f'''proof {{
+    SORTED = 'for e_ in 0..op_types.len()' in g.body
+    if SORTED:
+        after_loop_binding(g, 'for bi_ in 0..non_primitive_air_builders.len()', ' let ghost tp_b = table_preps@; let ghost b = *builder; let ghost ks = op_types@;')
+        g.at_loop_end('for bi_ in 0..non_primitive_air_builders.len()', f'''proof {{
             assert(b == bs[bi_ as int]);
-            assert(airs_of(bs, bi_ + 1, {ARGS}) == (if accepts_some(b, m) {{ airs_of(bs, bi_ as int, {ARGS}).push(built(b, the_type(b, m), m[the_type(b, m)], min_height, lanes_for(packing, b, the_type(b, m)), constraint_profile)) }} else {{ airs_of(bs, bi_ as int, {ARGS}) }}));
             assert(table_preps@ =~= tp0 + airs_of(bs, bi_ + 1, {ARGS})); // @@A:this_builders_air_is_appended_in_registration_order
         }}''')
-    g.loop('for e_ in 0..entries_.len()', invariant_except_break=[
-        ('no_accepted_type_among_the_entries_seen', 'table_preps@ == tp_b && forall|k: int| 0 <= k < e_ ==> !accepts(b, (#[trigger] entries_@[k]).0)'),
-    ], ensures=[
-        ('the_one_accepted_type_whichever_position_the_map_iteration_gave_it',
-         'table_preps@ == (if accepts_some(b, m) { tp_b.push(built(b, the_type(b, m), m[the_type(b, m)], min_height, lanes_for(packing, b, the_type(b, m)), constraint_profile)) } else { tp_b })'),
-    ], invariants=[
-        ('ctx', '''m == non_primitive_base.m@ && b == *builder && unique_accept(b, m)
-            && (forall|k: int| 0 <= k < entries_@.len() ==> m.dom().contains((#[trigger] entries_@[k]).0) && m[entries_@[k].0] == entries_@[k].1)
-            && (forall|t: NpoTypeId| m.dom().contains(t) ==> exists|k: int| 0 <= k < entries_@.len() && (#[trigger] entries_@[k]).0 == t)'''),
-    ])
-    g.before('break;', '''proof {
-                    let t = *op_type; assert(m.dom().contains(t) && accepts(b, t));
-                    assert(accepts_some(b, m)); assert(the_type(b, m) == t);
+        g.loop('for e_ in 0..op_types.len()', invariant_except_break=[
+            ('no_accepted_type_among_the_keys_seen', 'table_preps@ == tp_b && first_acc(b, ks, e_ as int) is None'),
+        ], ensures=[
+            ('the_first_accepted_type_in_key_order',
+             'table_preps@ == (match first_acc(b, ks, ks.len() as int) { Some(k) => tp_b.push(built(b, ks[k], m[ks[k]], min_height, lanes_for(packing, b, ks[k]), constraint_profile)), None => tp_b })'),
+        ], invariants=[
+            ('ctx', 'm == non_primitive_base.m@ && b == *builder && ks == op_types@ && ks == sorted_keys(m) && forall|k: int| 0 <= k < ks.len() ==> m.dom().contains(#[trigger] ks[k])'),
+        ])
+        g.before('break;', '''proof {
+                    assert(accepts(b, ks[e_ as int]));
+                    lemma_first_acc_found(b, ks, e_ as int, ks.len() as int);
                 }''')
-    g.loop('for bi_ in 0..non_primitive_air_builders.len()', invariants=[
-        ('ctx', f'm == {M_} && bs == non_primitive_air_builders@ && tp0 == old(table_preps)@ && forall|i: int| 0 <= i < bs.len() ==> unique_accept(#[trigger] bs[i], m)'),
-        ('airs_of_the_builders_so_far_in_registration_order', f'table_preps@ == tp0 + airs_of(bs, bi_ as int, {ARGS})'),
-    ])
+        g.loop('for bi_ in 0..non_primitive_air_builders.len()', invariants=[
+            ('ctx', f'm == {M_} && bs == non_primitive_air_builders@ && tp0 == old(table_preps)@ && op_types@ == sorted_keys(m) && forall|k: int| 0 <= k < op_types@.len() ==> m.dom().contains(#[trigger] op_types@[k])'),
+            ('airs_of_the_builders_so_far_in_registration_order', f'table_preps@ == tp0 + airs_of(bs, bi_ as int, {ARGS})'),
+        ])
     u.text('verus! {')
     u.emit(pb, vis='pub')
     u.emit(g, vis='pub')
